@@ -16,11 +16,21 @@ pub(crate) fn next_code_point(input: &[u8]) -> Result<Option<(u32, usize)>, Erro
 
     // Multibyte case follows
     // Decode from a byte combination out of: [[[x y] z] w]
+    // (A sequence starts with a lead byte and every byte after it must be a
+    // continuation byte. If that were not checked, an ASCII byte such as a closing
+    // quote could be swallowed as part of a 'character', and code that scans for
+    // the quote bytewise would disagree with us about where a string ends.)
+    if !(0xC0..0xF8).contains(&x) {
+        return Err(InnerError::Utf8Error.into());
+    }
     let init = utf8_first_byte(x, 2);
     if len < 2 {
         return Err(InnerError::Utf8Error.into());
     }
     let y = input[1];
+    if !is_cont_byte(y) {
+        return Err(InnerError::Utf8Error.into());
+    }
     let mut ch = utf8_acc_cont_byte(init, y);
     if x >= 0xE0 {
         // [[x y z] w] case
@@ -29,6 +39,9 @@ pub(crate) fn next_code_point(input: &[u8]) -> Result<Option<(u32, usize)>, Erro
             return Err(InnerError::Utf8Error.into());
         }
         let z = input[2];
+        if !is_cont_byte(z) {
+            return Err(InnerError::Utf8Error.into());
+        }
         let y_z = utf8_acc_cont_byte((y & CONT_MASK) as u32, z);
         ch = init << 12 | y_z;
         if x >= 0xF0 {
@@ -38,6 +51,9 @@ pub(crate) fn next_code_point(input: &[u8]) -> Result<Option<(u32, usize)>, Erro
                 return Err(InnerError::Utf8Error.into());
             }
             let w = input[3];
+            if !is_cont_byte(w) {
+                return Err(InnerError::Utf8Error.into());
+            }
             ch = (init & 7) << 18 | utf8_acc_cont_byte(y_z, w);
             Ok(Some((ch, 4)))
         } else {
@@ -113,6 +129,12 @@ const fn utf8_acc_cont_byte(ch: u32, byte: u8) -> u32 {
 
 /// Mask of the value bits of a continuation byte.
 const CONT_MASK: u8 = 0b0011_1111;
+
+/// Whether `byte` is a UTF-8 continuation byte (0b10xx_xxxx)
+#[inline]
+const fn is_cont_byte(byte: u8) -> bool {
+    byte & 0b1100_0000 == 0b1000_0000
+}
 
 #[cfg(test)]
 mod test {
